@@ -567,6 +567,24 @@ ada_really_inline bool url_aggregator::parse_host(std::string_view input) {
     is_valid = true;
     return true;
   }
+  // An ASCII input whose only irregularity is upper-case letters (accumulator
+  // == 2) just needs lower-casing. ada::url::parse_host takes the same
+  // shortcut; without it such a host would be subject to the input size limit
+  // of 'to_ascii' and the two URL types would disagree.
+  if (is_forbidden_or_upper == 2) {
+    std::string buffer(input);
+    unicode::to_lower_ascii(buffer.data(), buffer.size());
+    if (buffer.find(xn_dash) == std::string::npos) {
+      update_base_hostname(buffer);
+      if (checkers::is_ipv4(get_hostname())) {
+        ada_log("parse_host fast path ipv4");
+        return parse_ipv4(get_hostname(), true);
+      }
+      ada_log("parse_host fast path ", get_hostname());
+      is_valid = true;
+      return true;
+    }
+  }
   // We have encountered at least one forbidden code point or the input contains
   // 'xn-' (case insensitive), so we need to call 'to_ascii' to perform the full
   // conversion.
